@@ -48,7 +48,11 @@ USES = {
     "event-ref": (None, "match Ev3() as $evref\nmatch Ev0()\nsend OutE(v=$evref.v)"),
     "action-ref": (None, 'start UtteranceBotAction(script="ref") as $actref\nmatch Ev1()\nsend OutA(s=$actref.start_event_arguments.script)'),
     "global-var": (None, 'global $gv\n$gv = {"k": [1, 2]}\nmatch Ev2()\nsend OutG(v=$gv)'),
+    # object identity: one dict reachable through two references (two variables; a child flow sharing the parent's context)
+    "alias-dict": (None, '$ad = {"k": 1}\n$bd = $ad\nmatch Ev1()\n($bd.update({"k": 2}))\nsend OutAlias(v=$ad["k"])'),
+    "shared-context": (None, '$status = "initial"\n$ctxuid = uid()\nsend StartFlow(flow_id="ctxhelper", flow_instance_uid=$ctxuid, context=$self.context)\nmatch FlowStarted(flow_instance_uid=$ctxuid)\nmatch FlowFinished(flow_instance_uid=$ctxuid)\nsend OutShared(v=$status)'),
 }
+CTXHELPER = {"name": "ctxhelper", "params": [], "loop": None, "body": [{"k": "raw", "text": "match Ev3()"}, {"k": "raw", "text": '$status = "updated by helper"'}]}
 
 
 def budget(tier):
@@ -101,6 +105,16 @@ def enumerate_cases(tier):
             for mode in ("save", "age", "both"):
                 yield {"prog": prog, "hist": base_hist, "uses": [[1, pos, use]], "cuts": list(range(1, len(base_hist))), "mode": mode, "choices": []}
     yield from _activation_cases()
+    # hand-written families shared with C09 (two flows sharing one co-won action, ...): every cut x mode, both tie-break outcomes
+    from vf.props import c09
+
+    hist = [["ev", 0, None], ["ev", 1, None], ["ev", 2, None], ["finished", 0], ["ev", 1, None], ["ev", 2, None]]
+    hist2 = [["ev", 0, None], ["ev", 2, None], ["ev", 1, None], ["finished", 0], ["ev", 0, None]]
+    for name, (text, _items) in c09.FAMILIES.items():
+        for h in (hist, hist2):
+            for mode in ("age", "both", "save"):
+                for choices in ([0], [1]):
+                    yield {"text": text, "prog": {"flows": []}, "hist": h, "uses": [], "cuts": list(range(1, len(h))), "mode": mode, "choices": choices}
 
 
 def _activation_cases():
@@ -118,7 +132,12 @@ def _activation_cases():
 
 
 def build(case):
+    if "text" in case:
+        return case["text"]
     prog = {"flows": [dict(f, body=list(f["body"])) for f in case["prog"]["flows"]]}
+    if any(u[2] == "shared-context" for u in case["uses"]):
+        prog["flows"].insert(0, dict(CTXHELPER))
+        case = dict(case, uses=[[u[0] + 1, u[1], u[2]] for u in case["uses"]])
     needed = sorted({USES[u[2]][0] for u in case["uses"]} - {None})
     by_flow = {}
     for fi, pos, use in case["uses"]:
